@@ -211,6 +211,31 @@ Section Hier.
     rewrite Hh in H. now injection H as <-.
   Qed.
 
+  (* ... and more specific than every class comparable with that bound: its subclasses and its superclasses
+     ("Dependent is considered more specific than the bound and any of the bound's subclasses", docs/dependent.md) *)
+  Lemma subck_cls_raw n c d : subck (S n) (Cls c) (Cls d) = Some (Nat.eqb c d || sub c d).
+  Proof.
+    rewrite subck_S. unfold subck_body. cbn [ty_eqb supck issub_cls].
+    destruct (Nat.eqb c d); reflexivity.
+  Qed.
+
+  Theorem tord_dep_over_class n t b c :
+    is_dep3 t = true -> dep_bound t = Cls b -> (sub c b = true \/ sub b c = true) ->
+    tord (S (S n)) t (Cls c) = Some LESS /\ tord (S (S n)) (Cls c) t = Some MORE.
+  Proof.
+    intros D3 Hb Hs.
+    assert (Hne : ty_eqb t (Cls c) = false) by (destruct t; try discriminate D3; reflexivity).
+    assert (Hne' : ty_eqb (Cls c) t = false) by (destruct t; try discriminate D3; reflexivity).
+    assert (Hh : hook_order (tord (S n)) (subck (S n)) t (Cls c) = Some (Some LESS)).
+    { rewrite hook_dep3; [|exact D3|destruct t; reflexivity].
+      unfold dep_order. cbn [is_dep]. rewrite Hb, !subck_cls_raw.
+      destruct Hs as [Hs|Hs]; rewrite Hs, orb_true_r; [reflexivity|].
+      destruct (Nat.eqb c b || sub c b); reflexivity. }
+    split.
+    - rewrite tord_S. unfold tord_body. rewrite Hne, Hh. reflexivity.
+    - rewrite tord_S. unfold tord_body. rewrite Hne'. cbn [hook_order]. rewrite Hh. reflexivity.
+  Qed.
+
   (* a parametrised generic is strictly below its origin; two aliases of one origin compare argument-wise *)
   Theorem tord_gen_origin n o a : tord (S (S n)) (Gen o a) (Cls o) = Some LESS.
   Proof.
